@@ -356,6 +356,9 @@ def safetensors_split(run):
 
 
 def build(run):
+    from props import conformance
+
+    conformance.run_conformance(run, ['pack'])
     run.assume("A-ENGINE", "A-PY (dict insertion order, str methods on concrete strings)", "A-SER ast.literal_eval(str(v)) == v; torch.save/load and safetensors preserve tensors and strings",
                "A-TORCH-NN nn.Module._load_from_state_dict / state_dict protocol; Parameter(q) reaches detach", "A-PURE equal codes/scales/zero-points give bit-identical outputs",
                "PackedTensor contract (C04)")
